@@ -49,6 +49,8 @@ CORPUS = [
     Mut('c01-patterns-filtered', 'torchtree/evolution/site_pattern.py', '', "    pattern_ordering = sorted(list(count_dict.keys()))", "    count_dict = {k: v for k, v in count_dict.items() if len(set(k)) > 1}\n    pattern_ordering = sorted(list(count_dict.keys()))",
         expect=[('C01.W', 'compress::every-distinct-column-is-kept-with-its-count')], mode='text'),
     Mut('c01-clock-rate-added-not-multiplied', 'torchtree/evolution/tree_likelihood.py', '', "                bls = self.clock_model.rates * branch_lengths\n", "                bls = self.clock_model.rates + branch_lengths\n", expect=[('C01.B', 'clock::rate-times-time-per-branch')], mode='text'),
+    Mut('c01-scalers-escape-the-pattern-weights', 'torchtree/evolution/tree_likelihood.py', '', "    return torch.sum(\n        (\n            torch.log(freqs @ torch.sum(props * partials[post_indexing[-1][0]], dim=-3))\n            + torch.cat(scalers, -2).log().sum(dim=-2).unsqueeze(-2)\n        )\n        * weights,\n        dim=-1,\n    )\n", "    site_log_p = torch.log(freqs @ torch.sum(props * partials[post_indexing[-1][0]], dim=-3))\n    log_scalers = torch.cat(scalers, -2).log().sum(dim=-2).unsqueeze(-2)\n    return torch.sum(site_log_p * weights + log_scalers, dim=-1)\n", expect=[('C01.K', 'log-scalers-are-per-site-terms')], mode='text', nth=1),
+    Mut('c01-benign-return-through-locals', 'torchtree/evolution/tree_likelihood.py', '', "    return torch.sum(\n        (\n            torch.log(freqs @ torch.sum(props * partials[post_indexing[-1][0]], dim=-3))\n            + torch.cat(scalers, -2).log().sum(dim=-2).unsqueeze(-2)\n        )\n        * weights,\n        dim=-1,\n    )\n", "    site_log_p = torch.log(freqs @ torch.sum(props * partials[post_indexing[-1][0]], dim=-3))\n    log_scalers = torch.cat(scalers, -2).log().sum(dim=-2).unsqueeze(-2)\n    return torch.sum((site_log_p + log_scalers) * weights, dim=-1)\n", benign=True, mode='text', nth=1),
 ]
 for m in CORPUS:
     if m.id == 'c01-tipstate-guard':
